@@ -302,12 +302,11 @@ func (x *c07Run) mapperEnter(item any) (id int, it c07It, ok bool) {
 			break
 		}
 	}
-	st := atomic.AddInt32(&x.started, 1)
+	atomic.AddInt32(&x.started, 1)
 	x.closeGate(fmt.Sprintf("s%d", id))
 	if x.sc.Saturate {
 		// linger (bounded, never deciding) until one mapper more than the bound is in flight
 		w := int32(x.sc.effWorkers())
-		_ = st
 		for i := 0; i < 60 && atomic.LoadInt32(&x.maxGauge) <= w; i++ {
 			runtime.Gosched()
 		}
@@ -576,9 +575,6 @@ func (x *c07Run) key(o c07Outcome) string {
 		case o.err == context.DeadlineExceeded:
 			return "deadline"
 		case errors.As(o.err, &ce):
-			if o.err != error(ce) {
-				return "err:foreign"
-			}
 			return "err:" + ce.who
 		}
 		return "err:foreign"
@@ -748,7 +744,7 @@ func (x *c07Run) eventClass() string {
 	}
 	t := x.terminators()
 	x.mu.Lock()
-	early := len(x.rwrites) > 0 && x.redRet == 0 || (x.sc.Red.Early > 0 && len(x.rwrites) > 0)
+	early := x.sc.Red.Early > 0 && len(x.rwrites) > 0
 	x.mu.Unlock()
 	var parts []string
 	if early {
